@@ -21,4 +21,4 @@ if note: m['strengthened']=note
 json.dump(m,open(d+'meta.json','w'),indent=1)
 print(name,'caught=',m['check_caught'],'|',(m['check_reported'] or '')[:200])
 PY
-find /verif/replays -type f -delete
+find /verif/replays -type f -mmin +600 -delete  # (keeps what a background sweep wrote)
